@@ -3,5 +3,5 @@ CONSTANTS
   Names = {"a", "b", "c"}
   MaxItems = 9
   MaxDepth = 4
-  Kinds = {"fn", "fx", "ar", "blk", "forlet", "forvar", "catch", "cls", "cx"}
+  Kinds = {"fn", "fx", "ar", "blk", "forlet", "forvar", "forx", "catch", "cls", "cx"}
 CHECK_DEADLOCK FALSE
